@@ -6,9 +6,12 @@
 #include "engine.hpp"
 #include <cstdio>
 #include <cstdlib>
+#include <csignal>
+#include <unistd.h>
 #include <chrono>
 #include <sstream>
 
+extern "C" void __sanitizer_set_death_callback(void (*)(void)) __attribute__((weak));
 #if defined(__has_feature)
 #  if __has_feature(address_sanitizer)
 extern "C" __attribute__((used)) const char* __asan_default_options() { return "exitcode=77:detect_leaks=0:abort_on_error=0:allocator_may_return_null=1"; }
@@ -51,7 +54,11 @@ int main(int argc, char** argv) {
 		for (auto& f : factories()) std::printf("%s/%s caps=%u states=%d\n", f.shape, f.config, f.caps, f.desc->n);
 		return 0;
 	}
-	if (cmd == "replay") return argc >= 3 ? cmdReplay(argv[2]) : 2;
+	if (cmd == "replay") {
+		std::signal(SIGALRM, +[](int) { static const char msg[] = "HANG: the replayed run did not finish (loop inside the library)\n"; ssize_t r = write(1, msg, sizeof msg - 1); (void) r; _exit(79); });
+		alarm(120);
+		return argc >= 3 ? cmdReplay(argv[2]) : 2;
+	}
 
 	const std::string lens = arg(argc, argv, "--lens", "ALL");
 	const uint64_t seed = std::strtoull(arg(argc, argv, "--seed", "1").c_str(), nullptr, 10);
@@ -80,18 +87,31 @@ int main(int argc, char** argv) {
 	for (auto& c : split(arg(argc, argv, "--combos"), ',')) { auto sc = split(c, '/'); if (sc.size() == 2 && findFactory(sc[0], sc[1])) combos.emplace_back(sc[0], sc[1]); }
 	if (combos.empty()) for (auto& f : factories()) combos.emplace_back(f.shape, f.config);
 
-	Coverage cov;
-	js::Value found = js::Value::array();
+	static Coverage cov;
+	static js::Value found = js::Value::array();
 	const auto t0 = std::chrono::steady_clock::now();
-	long done = 0, nondet = 0, tainted = 0;
+	static long done = 0, nondet = 0, tainted = 0;
+	// a sanitizer report ends the process: leave what was judged so far behind, the driver restarts the worker after the run that died
+	static std::string s_out, s_lens; static uint64_t s_seed; s_out = out; s_lens = lens; s_seed = seed;
+	if (__sanitizer_set_death_callback) __sanitizer_set_death_callback(+[] {
+		static bool once = false; if (once) return; once = true;
+		js::Value sum = js::Value::object();
+		sum.set("lens", s_lens); sum.set("seed", (unsigned long long) s_seed); sum.set("runs", done); sum.set("wall_s", 0.0); sum.set("nondeterministic", nondet); sum.set("tainted_runs", tainted);
+		sum.set("coverage", cov.toJson()); sum.set("found", found); sum.set("died", true);
+		if (!s_out.empty()) js::writeFile(s_out, sum.dump());
+		std::printf("DIED after runs=%ld\n", done); std::fflush(stdout);
+	});
 	int exitCode = 0;
 	std::map<std::string, int> reported;
+	const unsigned watchdog = unsigned(std::atoi(arg(argc, argv, "--watchdog", "40").c_str()));
+	std::signal(SIGALRM, +[](int) { static const char msg[] = "HANG: the current run did not finish (loop inside the library)\n"; ssize_t r = write(1, msg, sizeof msg - 1); (void) r; _exit(79); });
 	for (long k = start; k < count; k += stride) {
 		if (budget > 0 && std::chrono::duration<double>(std::chrono::steady_clock::now() - t0).count() > budget) break;
 		const auto& combo = combos[size_t(k) % combos.size()];
 		const uint64_t runSeed = mix64(mix64(seed, uint64_t(k)), std::hash<std::string>()(combo.first + "/" + combo.second));
 		std::printf("START k=%ld seed=%llu combo=%s/%s\n", k, (unsigned long long) runSeed, combo.first.c_str(), combo.second.c_str());
 		std::fflush(stdout);
+		alarm(watchdog);     // a run takes milliseconds; one that is still going after this long sits in a loop inside the library (never reached on a tree where the checks pass)
 		RunPlan p = generate(runSeed, lens, combo.first, combo.second, avoid, opt);
 		RunResult r = execute(p, &cov);
 		++done;
@@ -130,6 +150,7 @@ int main(int argc, char** argv) {
 			found.push(f);
 		}
 	}
+	alarm(0);
 	const double wall = std::chrono::duration<double>(std::chrono::steady_clock::now() - t0).count();
 	js::Value sum = js::Value::object();
 	sum.set("lens", lens); sum.set("seed", (unsigned long long) seed); sum.set("runs", done); sum.set("wall_s", wall); sum.set("nondeterministic", nondet); sum.set("tainted_runs", tainted);
